@@ -520,6 +520,18 @@ class ProgGen:
                         lenexpr = ('bin', '+', ('bin', '%', ('var', r.choice(ints)[0]), ('int', 1)), ('int', ln))
                 out.append(('dyn', el, n, lenexpr))
                 self.declare(n, V(arr(el, False), length=ln, init=False))
+                if self.chance(0.3):
+                    # left unfilled (only its length is ever read); often a second one right behind it
+                    if self.chance(0.6):
+                        n2 = self.name('a')
+                        el2 = r.choice(self.elem_types())
+                        ln2 = r.choice((0, 1, 2, 5))
+                        out.append(('dyn', el2, n2, ('int', ln2)))
+                        self.declare(n2, V(arr(el2, False), length=ln2, init=False))
+                        out.append(('expr', ('call', 'write', (('len', ('var', n2)),))))
+                    out.append(('expr', ('call', 'write', (('len', ('var', n)),))))
+                    out.append(self.sep())
+                    return out
                 out.extend(self.fill(n, el, ln, d))
                 self.all_vars()[n].init = True
             else:
